@@ -26,10 +26,10 @@ RULE = ('cases: seeded histories of 5-20 adds/removes of named cell components o
         'removal with other components present, >=2 cells; distinct by (shape, op trace).')
 ASSUMPTIONS = ['removing np.copy is observationally invisible under pandas copy-on-write (stated reach limit)',
                'generators are pure functions of the coordinates', 'F4 (LookupGenerator on low-dimensional worlds) is a known finding']
-FLOORS = {'quick': {'sources_that_add_another_component_while_running': 31, 'sources_failing_part_way': 36, 're_added_from_array': 26, 'column_comparisons': 8000, 'src_callable': 243, 'src_list': 231, 'src_numpy': 254, 'src_constant': 248,
-                    'src_lookup3': 300, 'src_subclassed': 200, 'lookup_table_changed_before_use': 100, 'source_mutated_before_first_read': 200, 'src_lookup_lowdim': 135, 'removals': 394, 'in_place_updates': 179, 're_added_existing_name': 94, 'rejected_unknown_removal': 300, 'source_mutations': 550,
+FLOORS = {'quick': {'cases_in_mode_warnings': 42, 'deep_copies_of_the_world_checked': 179, 'sources_that_add_another_component_while_running': 31, 'sources_failing_part_way': 36, 're_added_from_array': 26, 'column_comparisons': 8000, 'src_callable': 243, 'src_list': 231, 'src_numpy': 235, 'src_constant': 247,
+                    'src_lookup3': 300, 'src_subclassed': 200, 'lookup_table_changed_before_use': 100, 'source_mutated_before_first_read': 200, 'src_lookup_lowdim': 135, 'removals': 392, 'in_place_updates': 179, 're_added_existing_name': 94, 'rejected_unknown_removal': 300, 'source_mutations': 550,
                     'get_cell_rows': 3000, 'big_worlds': 2, 'many_component_worlds': 2, 'shapes_line': 50, 'shapes_grid': 50, 'shapes_3d': 50, 'shapes_degenerate': 50,
-                    'generator_calls_checked': 1811, 'reach:Environments.DiscreteWorld.add_cell_component': 1900,
+                    'generator_calls_checked': 1766, 'reach:Environments.DiscreteWorld.add_cell_component': 1900,
                     'reach:Environments.LookupGenerator.__call__': 1000},
           'thorough': {'column_comparisons': 400000}}
 EXHAUSTIVE = {}
@@ -94,6 +94,22 @@ def case_history(ctx, case):
                 bad = next((i for i, (g, v) in enumerate(zip(got, vals)) if not same(g, v)), None)
                 raise CaseViolation(f'{what}: cell component {name!r} differs from its source values (first at cell id {bad} = {table[bad] if bad is not None else None})',
                                     shape=ext, expected=vals[:12], observed=got[:12], trace=trace[-8:])
+        if rng.random() < 0.08:
+            # a deep copy of the world holds the same cells with the same values, and a component added to IT afterwards holds what its
+            # source assigns (for the copy's cells)
+            import copy as _copy
+            e2 = _copy.deepcopy(env)
+            ctx.count('deep_copies_of_the_world_checked')
+            check([tuple(p) for p in e2.cells['pos'].tolist()] == table, f'{what}: a deep copy of the world has another set / order of cells', shape=ext)
+            for name, vals in shadow.items():
+                got2 = e2.cells[name].tolist()
+                if len(got2) != len(vals) or not all(same(g, v) for g, v in zip(got2, vals)):
+                    raise CaseViolation(f'{what}: in a deep copy of the world cell component {name!r} differs from its source values', shape=ext,
+                                        expected=vals[:12], observed=got2[:12])
+            e2.add_cell_component('added to the copy', lambda pos, cells: pos[0] + 10 * pos[1] + 100 * pos[2])
+            check(e2.cells['added to the copy'].tolist() == [p[0] + 10 * p[1] + 100 * p[2] for p in table],
+                  f'{what}: a component added to a deep copy of the world does not hold its source\'s values cell by cell', shape=ext)
+            check('added to the copy' not in env.cells.columns, 'a component added to a deep copy shows up in the original world', shape=ext)
         for _ in range(3):
             i = rng.randrange(ncells)
             x, y, z = table[i]
